@@ -9,7 +9,11 @@ C13 - case files round-trip; one case in different formats is one system.
    devices, same input-base values (numbers, strings, lists, missing), same power flow, same initialisation verdict;
    also after alter() (a writer must not serve a stale table); MATPOWER export -> import gives the same power flow,
    including a unity-ratio phase shifter.  TLC validates the records (Trace_CaseIO).
-Not decided: agreement of the PSS/E and MATPOWER *parsers* with an independent reading of the source file.
+3. Independent reading of the source (vh/srcread.py shares nothing with andes/io): every shipped PSS/E raw and MATPOWER file and
+   text-edited variants of the raw files (branch-end shunts, metered end, fixed shunt, winding-2 turns ratio, phase shift,
+   magnetizing admittance, windings in kV, out-of-service records, another system base, three-winding transformers) are read
+   by the library and solved; the reported voltages must balance the network the independent reader takes from the file.
+Not decided: the dyr file (dynamic data) against an independent reading.
 """
 import json
 import os
@@ -69,6 +73,27 @@ def run(tier):
     for k in range(3 if quick else 12):
         tasks.append(dict(kind="matpower", sid="mpc[generated k=%d: two loads and two shunts on one bus]" % k, case="generated",
                           spec=pfdrv.network_spec(640 + k, "int", 1, k)))
+    # the parsed element data agree with an independent reading of the source file: every shipped PSS/E / MATPOWER file as it is,
+    # and variants of the raw files that use record fields the shipped files leave at their defaults
+    from ..srcread import VARIANT_KINDS
+    src_files = ["matpower/case5.m", "matpower/case14.m", "matpower/case118.m", "matpower/case300.m", "ieee14/ieee14.raw", "ieee39/ieee39.raw",
+                 "kundur/kundur.raw", "npcc/npcc.raw", "wecc/wecc.raw", "wscc9/wscc9.raw", "wscc9/wscc9_3wxfr.raw", "nordic44/N44_BC.raw"]
+    if not quick:
+        src_files += ["GBnetwork/GBnetwork.m", "ieee14/ieee14_ieeevc.raw"]
+    single = [k for k in VARIANT_KINDS if not k.startswith("xfmr3")]
+    for c in src_files:
+        if not os.path.exists(os.path.join("/repo/andes/cases", c)):
+            continue
+        var = []
+        if c.endswith(".raw") and "N44" not in c:
+            if "3wxfr" in c:
+                var = [[("xfmr3", 0)], [("xfmr3_mag", 0)], [("sbase", 0), ("xfmr3_mag", 0)]]
+            elif quick and c not in ("kundur/kundur.raw", "ieee14/ieee14.raw", "ieee39/ieee39.raw"):
+                var = [[(single[(len(c) + j) % len(single)], j)] for j in range(2)]
+            else:
+                var = [[(k_, w)] for k_ in single for w in ((1,) if quick else (0, 1, 2, 5))]
+                var += [[("sbase", 0), ("xfmr_tap_angle_mag", 1)], [("branch_end_shunts", 0), ("metered_end", 0), ("fixed_shunt", 2)]]
+        tasks.append(dict(kind="source", sid="src[%s]" % c, case=c, variants=var))
     # fill in the idx of the altered device
     res = run_tasks("vh.checks.c13:task", tasks, nproc=NCPU, timeout=1500)
     traces = []
@@ -96,14 +121,25 @@ def run(tier):
             continue
         rep.traces += 1
         rep.nontriv(t["meta"]["sid"])
+        for cl in v.get("drift", []):
+            rep.note("%s: %s" % (t["meta"]["sid"], cl))
         for cl in v["viol"]:
+            if t["meta"]["sid"].startswith("src["):
+                for e in t["detail"]:
+                    if e.get("raised") or not e.get("balanced", True):
+                        rep.violation("%s:%s|%s" % (cl, t["meta"]["sid"], e["variant"]), "clause %s fails for %s (%s; %s): %s" % (
+                            cl, t["meta"]["sid"], e["variant"], "; ".join(e.get("what", [])), json.dumps(e.get("bad") or e.get("raised_text"))[:400]),
+                            replay=dict(sid=t["meta"]["sid"], record=e))
+                continue
             rep.violation("%s:%s" % (cl, t["meta"]["sid"]), "clause %s fails for %s: %s" % (cl, t["meta"]["sid"], json.dumps(t["detail"])[:400]),
                           replay=dict(sid=t["meta"]["sid"], records=t["detail"]))
     if traces:
         rep.sample(dict(sid=traces[0]["meta"]["sid"], records=traces[0]["detail"]))
     rep.rule = ("stock cases (%s) and generated networks through xlsx / json / chained round trips, after alter, and MATPOWER export/import; "
                 "non-trivial = every round trip" % ("fixed list" if quick else "all that load"))
-    rep.assume("parser agreement of PSS/E raw/dyr and MATPOWER readers with an independent reading of the source is not decided")
+    rep.assume("independent reading of the source (vh/srcread.py): MATPOWER bus / gen / branch matrices and PSS/E rev. 32 / 33 bus, load, fixed shunt, "
+               "generator, branch, two- and three-winding transformer records (CW 1-3, CZ 1-2, CM 1, nominal winding voltages equal to the bus base); "
+               "switched shunts, dc lines, FACTS devices and the dyr file are not read independently")
     return rep.finish()
 
 
